@@ -31,7 +31,114 @@ def _silence_log():
             pass
 
 
+def impl_proto(case) -> str:
+    """protocol-layer case: a request whose body may still be in transmission, abort(), cancel()"""
+    from twisted.internet.defer import Deferred
+    from twisted.internet.error import ConnectionDone
+    from twisted.internet.protocol import Protocol
+    from twisted.internet.testing import StringTransport
+    from twisted.python.failure import Failure as TFailure
+    from twisted.web._newclient import (HTTP11ClientProtocol, PotentialDataLoss, Request, RequestGenerationFailed,
+                                        RequestTransmissionFailed, ResponseDone, ResponseFailed,
+                                        ResponseNeverReceived)
+    from twisted.internet.defer import CancelledError
+    from twisted.web.http_headers import Headers
+    from twisted.web.iweb import IBodyProducer
+    from zope.interface import implementer
+
+    _silence_log()
+
+    class Transport(StringTransport):
+        # a real transport accepts pause/resume after loseConnection(); the test double refuses
+        def _checkState(self):
+            pass
+
+    class ProducerError(Exception):
+        pass
+
+    @implementer(IBodyProducer)
+    class Producer:
+        length = 4
+        stops = 0
+        consumer = d = None
+
+        def startProducing(self, consumer):
+            self.consumer, self.d = consumer, Deferred()
+            return self.d
+
+        def stopProducing(self):
+            self.stops += 1
+
+        def pauseProducing(self):
+            pass
+
+        def resumeProducing(self):
+            pass
+
+    fired, got, closed = [], [], []
+    box = {"response": None, "delivered": False}
+
+    class Consumer(Protocol):
+        def dataReceived(self, data):
+            if closed:
+                got.append(b"<<after-close>>")
+            got.append(data)
+
+        def connectionLost(self, reason):
+            closed.append("D" if reason.check(ResponseDone) else "P" if reason.check(PotentialDataLoss)
+                          else "F" if reason.check(ResponseFailed) else "?" + reason.type.__name__)
+
+    def on_resp(resp):
+        fired.append(f"R{resp.code}")
+        box["response"] = resp
+
+    def on_fail(f):
+        for cls, tag in ((ResponseNeverReceived, "N"), (ResponseFailed, "F"), (RequestGenerationFailed, "G"),
+                         (RequestTransmissionFailed, "T"), (CancelledError, "C")):
+            if f.check(cls):
+                fired.append(tag)
+                return
+        fired.append("?" + f.type.__name__)
+
+    proto = HTTP11ClientProtocol()
+    transport = Transport()
+    proto.makeConnection(transport)
+    producer = Producer() if case["transmitting"] else None
+    req = Request(H(case["method"]) if not producer else b"POST", b"/", Headers({b"host": [b"h"]}), producer,
+                  persistent=case["persistent"])
+    d = proto.request(req)
+    d.addCallbacks(on_resp, on_fail)
+    for op in case["ops"]:
+        k = op[0]
+        if k == "data":
+            proto.dataReceived(H(op[1]))
+        elif k in ("qdone", "qfail"):
+            if producer is not None and not producer.d.called:
+                if k == "qdone":
+                    try:
+                        producer.consumer.write(b"body")
+                    except Exception:
+                        pass
+                    producer.d.callback(None)
+                else:
+                    producer.d.errback(TFailure(ProducerError()))
+        elif k == "abort":
+            proto.abort()
+        elif k == "cancel":
+            d.cancel()
+        elif k == "deliver":
+            if box["response"] is not None and not box["delivered"]:
+                box["delivered"] = True
+                box["response"].deliverBody(Consumer())
+        elif k == "lost":
+            proto.connectionLost(TFailure(ConnectionDone()))
+    return (",".join(fired) + "|" + b"".join(got).hex() + "|" + ",".join(closed)
+            + f"|s{producer.stops if producer else 0}")
+
+
 def impl(case) -> str:
+    if case.get("kind") == "proto":
+        return impl_proto(case)
     from twisted.internet.error import ConnectionDone
     from twisted.internet.protocol import Protocol
     from twisted.internet.testing import StringTransport
@@ -178,7 +285,47 @@ def expected(case):
     return head_ok, received, complete
 
 
+def oracle_proto(case, obs):
+    if obs.count("|") != 3:
+        return Failure(case, "driver anomaly: " + obs[:100], "driver")
+    fired_s, deliv_hex, closed_s, _stops = obs.split("|")
+    fired = fired_s.split(",") if fired_s else []
+    closed = closed_s.split(",") if closed_s else []
+    ops = [o[0] for o in case["ops"]]
+    if len(fired) > 1:
+        return Failure(case, f"the request Deferred fired {len(fired)} times: {fired}", "deferred-fired-twice")
+    if len(closed) > 1:
+        return Failure(case, f"consumer.connectionLost called {len(closed)} times", "consumer-closed-twice")
+    if b"<<after-close>>" in H(deliv_hex):
+        return Failure(case, "consumer.dataReceived after consumer.connectionLost", "data-after-close")
+    if ("lost" in ops or "cancel" in ops) and len(fired) != 1:
+        upto = ops[:ops.index("lost")] if "lost" in ops else ops
+        if "abort" in upto and case["transmitting"] and not any(o in ("qdone", "qfail") for o in upto[:upto.index("abort")]):
+            tag = "abort-while-transmitting-request-never-completes"
+        elif "abort" in upto:
+            tag = "response-completes-while-aborting-request-never-completes"
+        elif case["transmitting"] and case.get("body") is None:
+            tag = "parse-error-while-transmitting-request-never-completes"
+        else:
+            tag = "deferred-never-fired"
+        return Failure(case, f"the connection was lost / the request cancelled but the request Deferred never fired "
+                       f"(ops {ops})", tag)
+    if case["transmitting"]:
+        # the connection goes away (loss or abort) before anything arrived and while the body is still being
+        # produced: the producer must be told to stop
+        first = next((i for i, o in enumerate(ops) if o in ("lost", "abort")), None)
+        if first is not None and not any(o in ("data", "qdone", "qfail", "cancel") for o in ops[:first]) \
+                and _stops == "s0":
+            return Failure(case, f"connection {ops[first]} while the request body was being produced, but the producer "
+                           "was never told to stop", "producer-not-stopped")
+    if case.get("body") is not None and not H(case["body"]).startswith(H(deliv_hex)):
+        return Failure(case, "delivered bytes are not a prefix of the response body", "body-proto")
+    return None
+
+
 def oracle(case, obs):
+    if case.get("kind") == "proto":
+        return oracle_proto(case, obs)
     if obs == "TIMING-NOT-APPLICABLE":
         return None
     if obs.count("|") != 2:
@@ -346,7 +493,7 @@ def _h11_responses(rng):
 
 
 def gen(rng, tier):
-    cases = []
+    cases = gen_proto(rng, tier)
     big = tier != "quick"
     for desc in _descs(rng, tier):
         wire = build(desc)[0]
@@ -385,7 +532,59 @@ def gen(rng, tier):
     return cases
 
 
+PROTO_WIRES = [
+    (b"HTTP/1.1 200 OK\r\nContent-Length: 3\r\n\r\nabc", b"abc"),
+    (b"HTTP/1.1 204 No Content\r\n\r\n", b""),
+    (b"HTTP/1.1 200 OK\r\nContent-Length: 0\r\n\r\n", b""),
+    (b"HTTP/1.1 200 OK\r\nTransfer-Encoding: chunked\r\n\r\n2\r\nab\r\n1\r\nc\r\n0\r\n\r\n", b"abc"),
+    (b"HTTP/1.1 200 OK\r\n\r\nabc", b"abc"),
+    (b"HTTP/1.1 100 Continue\r\n\r\nHTTP/1.1 404 NF\r\nContent-Length: 2\r\n\r\nno", b"no"),
+    (b"HTTP/1.1 200 OK\r\nContent-Length: x\r\n\r\n", None),
+]
+
+
+def _proto_case(rng):
+    wire, body = rng.choice(PROTO_WIRES)
+    t = rng.choice([0, len(wire), len(wire), rng.randrange(len(wire) + 1)])
+    datas = [["data", x.hex()] for x in _segment(rng, wire[:t])]
+    transmitting = rng.random() < 0.6
+    extra = []
+    if transmitting and rng.random() < 0.8:
+        extra.append([rng.choice(["qdone", "qdone", "qfail"])])
+    for k, pr in (("abort", 0.35), ("cancel", 0.2), ("deliver", 0.6), ("deliver", 0.2)):
+        if rng.random() < pr:
+            extra.append([k])
+    ops = list(datas)
+    for e in extra:
+        ops.insert(rng.randrange(len(ops) + 1), e)
+    if rng.random() < 0.85:
+        # the loss comes after every delivery; application calls may still follow it
+        last_data = max([i for i, o in enumerate(ops) if o[0] == "data"], default=-1)
+        ops.insert(rng.randrange(last_data + 1, len(ops) + 1), ["lost"])
+    return {"kind": "proto", "transmitting": transmitting, "method": b"GET".hex(), "persistent": rng.random() < 0.5,
+            "ops": ops, "body": None if body is None else body.hex()}
+
+
+def gen_proto(rng, tier):
+    return [_proto_case(rng) for _ in range(700 if tier == "quick" else 12000)]
+
+
 def corpus():
+    # the two abort() situations (found by the exactly-once invariant of the protocol layer)
+    pre = [
+        {"kind": "proto", "transmitting": True, "method": b"GET".hex(), "persistent": False, "body": None,
+         "ops": [["abort"], ["lost"]]},
+        {"kind": "proto", "transmitting": True, "method": b"GET".hex(), "persistent": False, "body": None,
+         "ops": [["abort"], ["qdone"], ["lost"]]},
+        {"kind": "proto", "transmitting": False, "method": b"GET".hex(), "persistent": False, "body": "",
+         "ops": [["abort"], ["data", b"HTTP/1.1 204 No Content\r\n\r\n".hex()], ["lost"]]},
+        {"kind": "proto", "transmitting": False, "method": b"HEAD".hex(), "persistent": True, "body": "",
+         "ops": [["abort"], ["data", b"HTTP/1.1 200 OK\r\nContent-Length: 5\r\n\r\n".hex()], ["lost"]]},
+    ]
+    return pre + _corpus_sessions()
+
+
+def _corpus_sessions():
     d = {"method": "GET", "code": 200, "framing": "cl", "body": b"abc".hex(), "phrase": "OK", "headers": [], "interim": [],
          "nl": "\r\n", "version": "HTTP/1.1"}
     wire = build(d)[0]
@@ -401,7 +600,24 @@ def corpus():
 # model side
 
 
+def to_coq_proto(case):
+    def op(o):
+        k = o[0]
+        if k == "data":
+            return f"OData {coq_bytes(H(o[1]))}"
+        return {"qdone": "OQDone", "qfail": "OQFail", "abort": "OAbort", "cancel": "OCancel", "deliver": "ODeliver",
+                "lost": "OLost"}[k]
+    m = b"POST" if case["transmitting"] else H(case["method"])
+    return f"(CProto ({coq_bytes(m)}, {coq_bool(case['transmitting'])}, {coq_list(map(op, case['ops']), 'op')}))"
+
+
 def to_coq(case):
+    if case.get("kind") == "proto":
+        return to_coq_proto(case)
+    return "(CSession " + _to_coq_session(case) + ")"
+
+
+def _to_coq_session(case):
     segs = [H(s) for s in case["segs"]]
     k = case["k"] if case["timing"] == "after" else 0
     t = {"never": "TNever", "at-response": "TBetween", "after": "TBetween", "after-lost": "TAfterLost"}[case["timing"]]
@@ -416,6 +632,11 @@ def model_equal(case, impl_obs, model_obs):
 
 
 def shrink(case):
+    if case.get("kind") == "proto":
+        ops = case["ops"]
+        for i in range(len(ops)):
+            yield {**case, "ops": ops[:i] + ops[i + 1:]}
+        return
     segs = case["segs"]
     if len(segs) > 1:
         yield {**case, "segs": ["".join(segs)], "k": min(case["k"], 1)}
@@ -424,6 +645,10 @@ def shrink(case):
 
 
 def histogram(case, obs):
+    if case.get("kind") == "proto":
+        ks = {o[0] for o in case["ops"]}
+        return ("proto:" + ("transmitting" if case["transmitting"] else "waiting") + (":abort" if "abort" in ks else "")
+                + (":cancel" if "cancel" in ks else "") + (":lost" if "lost" in ks else ""))
     d = case.get("desc")
     kind = "malformed/h11" if d is None else f"{d['method']}:{d['framing']}"
     return kind + ":" + case["timing"] + (":lost" if case["lose"] else ":open")
@@ -432,11 +657,11 @@ def histogram(case, obs):
 SPEC = Spec(
     pid="C23",
     gen=gen, impl=impl, oracle=oracle, corpus=corpus, shrink=shrink,
-    coq_header="From C23 Require Import Model Run.",
-    coq_fn="run_show",
+    coq_header="From C23 Require Import Model Protocol Run.",
+    coq_fn="run_show_any",
     to_coq=to_coq,
     model_equal=model_equal,
-    nontrivial=lambda c, o: o != "TIMING-NOT-APPLICABLE" and c["t"] > 0,
+    nontrivial=lambda c, o: c.get("kind") == "proto" or c["t"] > 0,
     histogram=histogram,
     rule="responses built from structured descriptions (GET/HEAD x 200/204/304/404 x Content-Length / duplicated "
          "Content-Length / chunked with extensions and trailers / close-delimited; 0-2 interim 1xx; CRLF or bare LF; "
